@@ -4,6 +4,7 @@
   Responses: `(accepted <stage> <detail>)`, `(rejected <classifier> <detail>)`,
   `(inconclusive <why>)`.
 -/
+import ChalkModel.Props.C01gen
 import ChalkModel.Wire
 import ChalkModel.Eval
 import ChalkModel.Contract
@@ -112,6 +113,18 @@ def Judgement.toSexp : Judgement → Sexp
   | .rejected _ c w => .list [.atom "rejected", .atom c, .list (w.map tmToSexp)]
   | .inconclusive why => .list [.atom "inconclusive", .atom why]
 
+/-- An accepted `Unique σ` is certified on the generic instantiation of `σ`; when program, goal and
+    answer contain no `!g…` symbol and the goal is positive, `C01gen.accepted_unique_holds_every_instance`
+    lifts that to EVERY instantiation — the stage name records that the theorem's executable side
+    conditions were evaluated and hold. -/
+def refineUniqueStage (P : Program) (g : Goal) (ans : Answer) (r : Sexp) : Sexp :=
+  match r, ans with
+  | .list [.atom "accepted", .atom "unique:A+bounded"], .unique σ =>
+      if Chalk.C01gen.Program.avoidsGenericB P && Chalk.C01gen.Goal.avoidsGenericB g && g.positiveB
+          && Chalk.C01gen.answerAvoidsGenericB σ
+      then .list [.atom "accepted", .atom "unique:A+bounded+every-instance"] else r
+  | r, _ => r
+
 def strList? : Sexp → Option (List String)
   | .list xs => xs.mapM fun | .atom s => some s | _ => none
   | _ => none
@@ -216,18 +229,20 @@ def opsSem : Sexp → Option Sexp
       let cands := (assignments pool (← nvars.nat?)).take (← maxc.nat?)
       -- `ctx` (which solver, which shape of input) only refines the classifier of a rejection
       let isSlg ← bool? slg
-      some (match (judgeAnswer P (← fuel.nat?) (← goalOfSexp? g) cands isSlg (answerOfSexp ans)).toSexp with
+      let G ← goalOfSexp? g
+      some (match (judgeAnswer P (← fuel.nat?) G cands isSlg (answerOfSexp ans)).toSexp with
         | .list [.atom "rejected", .atom c, d] =>
             .list [.atom "rejected", .atom (refineF11 P isSlg c ++ "@" ++ ctx), d]
-        | r => r)
+        | r => refineUniqueStage P G (answerOfSexp ans) r)
   | .list [.atom "judge-answer", p, g, nvars, fuel, sig, depth, maxc, slg, ans] => do
       let P ← programOfSexp? p
       let pool := termsUpTo (← sigOfSexp? sig) (← depth.nat?)
       let cands := (assignments pool (← nvars.nat?)).take (← maxc.nat?)
       let isSlg ← bool? slg
-      some (match (judgeAnswer P (← fuel.nat?) (← goalOfSexp? g) cands isSlg (answerOfSexp ans)).toSexp with
+      let G ← goalOfSexp? g
+      some (match (judgeAnswer P (← fuel.nat?) G cands isSlg (answerOfSexp ans)).toSexp with
         | .list [.atom "rejected", .atom c, d] => .list [.atom "rejected", .atom (refineF11 P isSlg c), d]
-        | r => r)
+        | r => refineUniqueStage P G (answerOfSexp ans) r)
   | _ => none
 
 end Chalk.Sem
